@@ -331,16 +331,17 @@ Lemma no_sp_is_no_space ws : forallb no_sp ws = forallb no_space ws.
 Proof. reflexivity. Qed.
 Lemma zidless_okb_sound it : zidless_okb it = true -> zidless_ok it.
 Proof.
-  unfold zidless_okb, zidless_ok. destruct (i_ident it) as [s|z|m z|d]; try discriminate.
+  unfold zidless_okb, zidless_ok. destruct (i_ident it) as [s|z|m z|d|s]; try discriminate.
   - intros H. apply andb_prop in H. destruct H as [H1 H2]. apply negb_true_iff in H1, H2. now split.
   - intros H. apply andb_prop in H. destruct H as [H H3]. apply andb_prop in H. destruct H as [H1 H2].
     apply negb_true_iff in H1. repeat split; try assumption. destruct (i_words it); [discriminate|discriminate].
+  - intros H. apply andb_prop in H. destruct H as [H1 H2]. apply negb_true_iff in H1, H2. now split.
 Qed.
 Lemma prio_okb_sound it : prio_okb it = true -> prio_ok it.
 Proof. unfold prio_okb, prio_ok. destruct (i_prio it); [auto|trivial]. Qed.
 Lemma stampableb_sound it : stampableb it = true -> stampable it.
 Proof.
-  unfold stampableb, stampable. destruct (i_ident it) as [s|z|m z|d]; try discriminate;
+  unfold stampableb, stampable. destruct (i_ident it) as [s|z|m z|d|s]; try discriminate;
     intros H; apply andb_prop in H; destruct H as [H1 H2]; apply negb_true_iff in H1.
   - apply negb_true_iff in H2. now split.
   - now split.
